@@ -151,6 +151,10 @@ def _refs(args):
         # a tracking variable of the same name with ANOTHER key: the later member's dictionary is the group's variable
         over_t = [(n, k) for (n, k) in tracked if rng.random() < 0.7]
         comps_b += [f'@{n}.kb = "tb-{j}"' for j, (n, k) in enumerate(over_t)]
+        if plain and rng.random() < 0.6:
+            # the second member looks at the group's variables while the group is still running (its sibling's value): what a LATER
+            # reference sees is still what the run left, not what was there when somebody first looked
+            comps_b.insert(rng.randint(0, len(comps_b)), f"@peek = $g1.variables.{rng.choice(plain)}")
         texts1.append("~ id: b ~ $data[1*][ " + " ".join(comps_b) + " ]")
     nruns = rng.choice([1, 2, 3])
     clock = pharness.FakeClock()
